@@ -233,6 +233,9 @@ type Plan struct {
 	Txs      []TxSpec
 	Absent   []string
 	Evidence []proto.EvidenceSpec
+	// Stray: transactions that only ever reach the mempool check, keyed by the call boundary of the block at
+	// which they arrive on every replica; they are in no block
+	Stray map[string][][]byte
 	// PerReplica lets a check alter the recipe for one replica (C06 filters
 	// failed txs, C07 injects CheckTx, C08 crashes); nil = same recipe.
 	PerReplica func(i int, base proto.Recipe, sofar *Block) *proto.Recipe
@@ -274,6 +277,16 @@ func (r *Runner) Step(p Plan) (*Block, error) {
 			} else if r.lastTx != nil {
 				rci.Inject["before:EndBlock"] = [][]byte{r.lastTx}
 			}
+		}
+		if len(p.Stray) > 0 {
+			inj := map[string][][]byte{}
+			for k, v := range rci.Inject {
+				inj[k] = append(inj[k], v...)
+			}
+			for k, v := range p.Stray {
+				inj[k] = append(inj[k], v...)
+			}
+			rci.Inject = inj
 		}
 		var use *proto.Recipe = &rci
 		if p.PerReplica != nil {
